@@ -167,6 +167,10 @@ type inst struct {
 	drained bool
 
 	setupErr error
+
+	// free-running mode (supplementary -race pass, free.go): real goroutines, shim in pass-through mode; nil in
+	// controlled executions, where lock/unlock are no-ops
+	free *freeRun
 }
 
 func newInst(cfg *Config, seen map[string]bool) *inst {
@@ -230,6 +234,9 @@ func (h *inst) body() {
 	cfg := bidengine.Config{PricingStrategy: &scriptedPricing{h: h}, Deposit: mtypes.DefaultBidMinDeposit}
 	if h.cfg.BidTimeout {
 		cfg.BidTimeout = 5 * time.Minute
+		if h.free != nil {
+			cfg.BidTimeout = 3 * time.Millisecond // real clock in pass-through mode: let the timeout actually happen
+		}
 	}
 	vo, err := bidengine.VerifNewOrder(sess, &scriptedCluster{h: h}, h.bus, cfg, &scriptedAttr{h: h}, h.orderID, h.cfg.ExistingBid)
 	if err != nil {
@@ -238,6 +245,10 @@ func (h *inst) body() {
 		return
 	}
 	h.vo = vo
+	if h.free != nil {
+		h.free.start(h)
+		return
+	}
 	vs.GoEnv(h.environment)
 	vs.Go(h.waiter)
 }
@@ -246,9 +257,13 @@ func (h *inst) body() {
 func (h *inst) waiter() {
 	vs.Label("waiter")
 	vs.Recv(h.vo.Done())
+	h.lock()
 	h.ended = true
+	h.unlock()
 	h.vo.WaitDrained()
+	h.lock()
 	h.drained = true
+	h.unlock()
 }
 
 // ---------------------------------------------------------------------------------------------
@@ -261,6 +276,7 @@ func (h *inst) call(kind string, price sdk.Coin) string {
 	} else {
 		vs.Label("runner:" + kind)
 	}
+	h.lock()
 	for _, o := range h.calls {
 		if o.kind == kind {
 			c.seq++
@@ -270,11 +286,14 @@ func (h *inst) call(kind string, price sdk.Coin) string {
 	c.afterReserveOK = h.nReserveOK > 0
 	vs.Note("call", kind, c.seq, c.afterReserveOK)
 	h.calls = append(h.calls, c)
+	h.unlock()
 	v := vs.Recv(c.release)
+	h.lock()
 	c.result = v
 	if kind == kReserve && v == "ok" {
 		h.nReserveOK++
 	}
+	h.unlock()
 	return v
 }
 
@@ -289,7 +308,9 @@ func (h *inst) ctxDone(ctx context.Context, kind string) error {
 	err := ctx.Err()
 	vs.Note("ctx", kind, err != nil)
 	if err != nil {
+		h.lock()
 		h.refused = append(h.refused, kind)
+		h.unlock()
 	}
 	return err
 }
@@ -534,6 +555,10 @@ func (h *inst) inject(ev string) {
 }
 
 func (h *inst) environment() {
+	if h.free != nil {
+		h.environmentFree()
+		return
+	}
 	vs.Label("env")
 	for {
 		// wait for my turn: passed (with early-injection budget 0) only when the system is quiescent,
